@@ -23,6 +23,8 @@ Inductive page_case :=
 | PPage (o : ostate) (l : listing) (pname : string) (offset limit : nat) (count_total reverse : bool)
 (* a whole walk following next keys *)
 | PWalk (o : ostate) (l : listing) (pname : string) (limit : nat) (reverse : bool)
+(* one page of [limit1] from the start, then one page of [limit2] from its next key *)
+| PResume (o : ostate) (l : listing) (pname : string) (limit1 limit2 : nat) (reverse : bool)
 (* key and offset together *)
 | PBoth (o : ostate) (l : listing) (pname : string).
 
@@ -59,6 +61,18 @@ Definition run_page (c : page_case) : val :=
         (fun lst => VL [VZ 0; VLs (VLs v_amount) (walk cmp_ak fst (S (length lst)) lst lim rv None true)])
         (fun lst => VL [VZ 0; VLs (VLs v_count) (walk cmp_ck fst (S (length lst)) lst lim rv None true)])
         (VL [VZ 1])
+  | PResume o l pname lim1 lim2 rv =>
+      let go {K A} (cmp : K -> K -> comparison) (keyof : A -> K) (f : A -> val) (lst : list A) : val :=
+        match paginate cmp keyof lst {| pr_key := None; pr_offset := 0; pr_limit := lim1; pr_count_total := false; pr_reverse := rv |} with
+        | Ok pg =>
+            VL [VZ 0; VLs f (pg_items pg);
+                match pg_next pg with
+                | Some k => v_page f (paginate cmp keyof lst {| pr_key := Some k; pr_offset := 0; pr_limit := lim2; pr_count_total := false; pr_reverse := rv |})
+                | None => VL [VZ 2]
+                end]
+        | _ => VL [VZ 1]
+        end in
+      with_listing o l pname (go cmp_ak fst v_amount) (go cmp_ck fst v_count) (VL [VZ 1])
   | PBoth o l pname =>
       with_listing o l pname
         (fun lst => match lst with
